@@ -42,6 +42,10 @@ type builder struct {
 	// hard is set when the workspace uses something that changes how the other rules apply
 	// (editions features): then not even a rule violation is decided
 	hard bool
+	// editions features
+	closed   map[string]bool // enum full name -> closed
+	fileFeat featSet         // resolved features of the file being built
+	cur      featSet         // resolved features of the enclosing scope
 }
 
 func (b *builder) rej(rule, format string, args ...any) {
@@ -55,7 +59,7 @@ func (b *builder) unk(format string, args ...any) {
 	if b.unknown == "" {
 		b.unknown = fmt.Sprintf(format, args...)
 	}
-	if strings.Contains(format+fmt.Sprint(args...), "features.") {
+	if strings.Contains(format, "[hard]") {
 		b.hard = true
 	}
 }
@@ -64,6 +68,7 @@ func (b *builder) unk(format string, args ...any) {
 // lowers it to the descriptors protoc would produce.
 func Check(ws *WS) *Result {
 	b := &builder{ws: ws, t: NewTable(ws)}
+	b.resolveEnumTypes()
 	files := map[string]*descriptorpb.FileDescriptorProto{}
 	// rule 14: imports
 	for _, fl := range ws.Files {
@@ -138,6 +143,7 @@ func (b *builder) file(fl *File) *descriptorpb.FileDescriptorProto {
 			fd.WeakDependency = append(fd.WeakDependency, int32(i))
 		}
 	}
+	b.fileFeat = defaultFeatures(fl.Syntax)
 	if len(fl.Options) > 0 {
 		fo := &descriptorpb.FileOptions{}
 		seen := map[string]bool{}
@@ -146,6 +152,12 @@ func (b *builder) file(fl *File) *descriptorpb.FileDescriptorProto {
 				b.rej("option-set-twice", "file option %s set twice", o.Name)
 			}
 			seen[o.Name] = true
+			if isFeature(o.Name) {
+				if b.applyFeature(fl, o, "file", fl.Name, &b.fileFeat, &fo.Features) && o.Name == "features.field_presence" && o.Value == "LEGACY_REQUIRED" {
+					b.rej("feature-required-file-default", "%s: LEGACY_REQUIRED cannot be the file default", fl.Name)
+				}
+				continue
+			}
 			switch o.Name {
 			case "java_package":
 				if s, ok := strLit(o.Value); ok {
@@ -174,6 +186,7 @@ func (b *builder) file(fl *File) *descriptorpb.FileDescriptorProto {
 		}
 		fd.Options = fo
 	}
+	b.cur = b.fileFeat
 	for _, d := range fl.Decls {
 		switch d := d.(type) {
 		case *Msg:
@@ -320,6 +333,14 @@ func (b *builder) enum(fl *File, scope string, e *Enum) *descriptorpb.EnumDescri
 				}
 				ed.Options.Deprecated = b.boolOpt(*x)
 			default:
+				if isFeature(x.Name) {
+					if ed.Options == nil {
+						ed.Options = &descriptorpb.EnumOptions{}
+					}
+					fs := b.cur
+					b.applyFeature(fl, *x, "enum", full, &fs, &ed.Options.Features)
+					continue
+				}
 				b.unk("enum option %s", x.Name)
 			}
 		case *Reserved:
@@ -344,7 +365,7 @@ func (b *builder) enum(fl *File, scope string, e *Enum) *descriptorpb.EnumDescri
 		b.rej("enum-empty", "enum %s has no values", full)
 		return ed
 	}
-	open := fl.Syntax == "proto3" || fl.Syntax == "2023"
+	open := !b.closed[full]
 	if open && nums[0] != 0 {
 		b.rej("enum-first-nonzero", "first value of open enum %s is %d", full, nums[0])
 	}
@@ -405,6 +426,16 @@ func (b *builder) msg(fl *File, scope string, m *Msg) *descriptorpb.DescriptorPr
 	var reserved, extRanges [][2]int64
 	var reservedNames []string
 	var proto3Opt []*descriptorpb.FieldDescriptorProto
+	saved := b.cur
+	defer func() { b.cur = saved }()
+	for _, x := range m.Body {
+		if o, ok := x.(*Option); ok && isFeature(o.Name) {
+			if md.Options == nil {
+				md.Options = &descriptorpb.MessageOptions{}
+			}
+			b.applyFeature(fl, *o, "message", full, &b.cur, &md.Options.Features)
+		}
+	}
 	addField := func(x *Field, oneof *int32) {
 		fdp := b.field(fl, full, x, "", oneof, &md.NestedType)
 		md.Field = append(md.Field, fdp)
@@ -427,6 +458,13 @@ func (b *builder) msg(fl *File, scope string, m *Msg) *descriptorpb.DescriptorPr
 			idx := int32(len(md.OneofDecl))
 			od := &descriptorpb.OneofDescriptorProto{Name: proto.String(x.Name)}
 			for _, o := range x.Opts {
+				if isFeature(o.Name) {
+					fs := b.cur
+					var sink *descriptorpb.FeatureSet
+					b.applyFeature(fl, o, "oneof", qual(full, x.Name), &fs, &sink)
+					b.unk("[hard] feature on a oneof")
+					continue
+				}
 				b.unk("oneof option %s", o.Name)
 			}
 			md.OneofDecl = append(md.OneofDecl, od)
@@ -501,6 +539,9 @@ func (b *builder) msg(fl *File, scope string, m *Msg) *descriptorpb.DescriptorPr
 			case "message_set_wire_format":
 				b.unk("message_set_wire_format")
 			default:
+				if isFeature(x.Name) {
+					continue // handled before the fields
+				}
 				b.unk("message option %s", x.Name)
 			}
 		}
@@ -572,7 +613,7 @@ func (b *builder) msg(fl *File, scope string, m *Msg) *descriptorpb.DescriptorPr
 			// protoc checks twice: the default names of all fields against each other
 			// (an error unless the file is proto2), then the effective names, where a
 			// clash that involves a custom json_name is always an error
-			if fr.def == o.def && (fl.Syntax == "proto3" || fl.Syntax == "2023") {
+			if fr.def == o.def && b.cur.json == "ALLOW" {
 				b.rej("json-name-conflict", "message %s: fields %s and %s have the same default JSON name %q", full, o.name, fr.name, fr.def)
 			}
 			if fr.json == o.json && (fr.cust || o.cust) {
@@ -800,7 +841,68 @@ func (b *builder) field(fl *File, scope string, x *Field, extendee string, oneof
 		return fo
 	}
 	seen := map[string]bool{}
+	// editions features set on the field itself, then the rules that depend on the resolved set
+	fs := b.cur
+	var ffeat *descriptorpb.FeatureSet
+	isRepeated := fd.GetLabel() == descriptorpb.FieldDescriptorProto_LABEL_REPEATED
 	for _, o := range x.Opts {
+		if !isFeature(o.Name) {
+			continue
+		}
+		if !b.applyFeature(fl, o, "field", full, &fs, &ffeat) {
+			continue
+		}
+		switch o.Name {
+		case "features.field_presence":
+			switch {
+			case isRepeated:
+				b.rej("feature-presence-on-repeated", "field %s: repeated fields cannot specify field presence", full)
+			case oneof != nil:
+				b.rej("feature-presence-in-oneof", "field %s: oneof fields cannot specify field presence", full)
+			case isExt:
+				b.unk("[hard] field presence on an extension")
+			case o.Value == "IMPLICIT" && kind == KMessage:
+				b.rej("feature-implicit-message", "field %s: message fields cannot have implicit presence", full)
+			}
+		case "features.repeated_field_encoding":
+			switch {
+			case !isRepeated || x.Map != nil:
+				b.rej("feature-encoding-on-singular", "field %s: only repeated fields can specify repeated field encoding", full)
+			case !isRepeatable && o.Value == "PACKED":
+				b.rej("feature-packed-not-packable", "field %s: only repeated primitive fields can be packed", full)
+			case !isRepeatable:
+				b.unk("[hard] EXPANDED encoding on a field that cannot be packed")
+			}
+		case "features.utf8_validation":
+			if x.Map != nil {
+				b.unk("[hard] utf8_validation on a map field")
+			} else if x.Type != "string" {
+				b.rej("feature-utf8-on-non-string", "field %s: only string fields can specify utf8 validation", full)
+			}
+		case "features.message_encoding":
+			if x.Map != nil {
+				b.unk("[hard] message_encoding on a map field")
+			} else if kind != KMessage {
+				b.rej("feature-encoding-on-non-message", "field %s: only message fields can specify message encoding", full)
+			}
+		}
+	}
+	if !featureProtoEmpty(ffeat) {
+		opt().Features = ffeat
+	}
+	implicit := fl.Syntax == "2023" && fs.presence == "IMPLICIT" && !isRepeated && oneof == nil && kind != KMessage && !isExt
+	if implicit && kind == KEnum && enumNode != nil {
+		if tn := strings.TrimPrefix(fd.GetTypeName(), "."); b.closed[tn] {
+			b.rej("implicit-field-closed-enum", "field %s has implicit presence and uses closed enum %s", full, tn)
+		}
+	}
+	for _, o := range x.Opts {
+		if isFeature(o.Name) {
+			continue
+		}
+		if o.Name == "default" && implicit {
+			b.rej("default-on-implicit", "field %s: default value on a field with implicit presence", full)
+		}
 		if seen[o.Name] && !strings.HasPrefix(o.Name, "(") && o.Name != "targets" { // targets is repeated
 			b.rej("option-set-twice", "field %s: option %s set twice", full, o.Name)
 		}
